@@ -21,6 +21,8 @@ def rand_target(rng):
     r = rng.random()
     if r < 0.45:
         return G.rand_scalar(rng)
+    if r < 0.5:
+        return G.rand_set(rng)
     if r < 0.8:
         items, seen = [], set()
         for k in rng.sample(['a', 'b', 'ab', 0, 1], rng.randint(0, 3)):
@@ -40,7 +42,7 @@ def gen_steps(rng):
 
 def gen_atom(rng, mode, counter):
     r = rng.random()
-    rhs = val(rng.choice([0, 1, 2, 'a', 'b', '', None, True]))
+    rhs = val(rng.choice([0, 1, 2, 'a', 'b', '', None, True])) if rng.random() < 0.9 else G.rand_set(rng)
     cmp_ = rng.choice(['==', '!=', '<', '>', '<=', '>='])
     if r < 0.3:
         return {'op': 'm', 'cmp': cmp_, 'rhs': rhs, 'refl': rng.random() < 0.3}
@@ -54,7 +56,7 @@ def gen_atom(rng, mode, counter):
         return {'op': 'tget', 'steps': gen_steps(rng) if rng.random() < 0.8 else []}
     if r < 0.78:
         counter[0] += 1
-        names = ['yes', 'no', 'zero', 'truthy', 'isnum', 'boom']
+        names = ['yes', 'no', 'zero', 'truthy', 'isnum', 'falsy', 'boom', 'boom_attr', 'recip', 'head']
         return {'op': 'pred', 'name': rng.choice(names), 'id': counter[0]}
     if r < 0.86:
         return gen_check(rng)
